@@ -16,7 +16,9 @@
 (* harness/drivers/getter replays against the real getters on a mock       *)
 (* network and compares with what the model says comes back (B2).          *)
 (*                                                                         *)
-(* The code's oddities are kept as switches so that TLC shows them:        *)
+(* The code's oddities are kept as switches so that TLC shows them (the    *)
+(* values of the code before its repair, commits f0aff97 / af855f8 of the  *)
+(* repository; the MC_defect_* configurations set them and must fail):     *)
 (*   ClearOnFail = FALSE : a payload that decoded but failed verification  *)
 (*       stays in the response buffer (samples[i]) -- returned next to the  *)
 (*       error when the remaining attempts bring no payload                *)
@@ -99,8 +101,9 @@ Decode(k) ==
                           \* eds: a cut at a share boundary inside the tail padding is refilled by ReadShares
       [] k = "ext"     -> {"good", "bad", "same", "zero"}
                           \* one-message containers ignore trailing bytes; stream containers do not
-      [] k = "garble"  -> {"bad", "same", "zero"} \cup (IF ReqType \in {"nd", "range"} THEN {"good"} ELSE {})
-                          \* a flipped bit in an unused proto field / ignored proof field decodes to the same value
+      [] k = "garble"  -> {"good", "bad", "same", "zero"}
+                          \* a flipped bit in an unused proto field / ignored proof field (the proof's leaf hash)
+                          \* decodes to the same value
       [] k = "emptyok" -> {"nil", "same"}
       [] OTHER         -> {}
 
@@ -368,13 +371,22 @@ ShrexReturn ==
 (* UnmarshalFn: decode, compare the ID, verify against the roots, and only *)
 (* then assign Block.Container (the population rule).                      *)
 (***************************************************************************)
-BsOffer(i, k) ==
-    /\ Running("bitswap") /\ blk[i] = "empty" /\ bsN[i] < MaxAnswers /\ k \in BsKinds
+(* Does a candidate of kind k pass the verifying unmarshal?  Trailing bytes that parse as unknown
+   protobuf fields and bit flips in ignored fields leave the container intact. *)
+BsAccept(k) ==
+    IF CanonDecode THEN {k = "correct"}
+    ELSE CASE k = "correct" -> {TRUE}
+           [] k \in {"ext", "garble"} -> {TRUE, FALSE}
+           [] OTHER -> {FALSE}
+
+BsOffer(i, k, acc) ==
+    /\ Running("bitswap") /\ blk[i] = "empty" /\ bsN[i] < MaxAnswers /\ k \in BsKinds /\ acc \in BsAccept(k)
        \* (a block already in flight is still hashed -- and populates -- after the context ended)
     /\ bsN' = [bsN EXCEPT ![i] = @ + 1]
     /\ bshist' = [bshist EXCEPT ![i] = Append(@, k)]
-    /\ IF k = "correct"
-       THEN blk' = [blk EXCEPT ![i] = "good"] /\ toStore' = toStore \cup {i} /\ popBy' = [popBy EXCEPT ![i] = k]
+    /\ IF acc
+       THEN /\ blk' = [blk EXCEPT ![i] = "good"] /\ toStore' = toStore \cup {i}
+            /\ popBy' = [popBy EXCEPT ![i] = "verified"]
        ELSE UNCHANGED <<blk, toStore, popBy>>
     /\ UNCHANGED <<p, ctx, g, gctx, shrexVars, stored, rets, final, panic, timing>>
 
@@ -411,7 +423,7 @@ Next ==
          \/ ReturnCtx(i) \/ NextAttempt(i) \/ PickPeer(i) \/ PickPeerCtx(i) \/ Interrupt(i) \/ Timeout(i)
          \/ VerifyOK(i) \/ VerifyFail(i) \/ Classify(i)
          \/ \E k \in Kinds : \E dec \in {"good", "bad", "bad2", "nil", "same", "zero", "none"} : Request(i, k, dec)
-         \/ \E k \in BsKinds : BsOffer(i, k)
+         \/ \E k \in BsKinds : \E acc \in BOOLEAN : BsOffer(i, k, acc)
          \/ BsStore(i)
     \/ ShrexReturn \/ BsDone \/ BsCtx
 
@@ -456,7 +468,7 @@ CascadeNoPartial ==
 BlockStoreSink == \A i \in stored : blk[i] = "good"
 
 (* population rule: a block is filled only by a candidate that verifies *)
-PopulationRule == \A i \in Items : blk[i] = "good" <=> popBy[i] = "correct"
+PopulationRule == \A i \in Items : blk[i] = "good" <=> popBy[i] = "verified"
 
 (* with the repaired buffer handling, an unverified payload lives in the buffer only between decode
    and verify *)
